@@ -24,22 +24,25 @@ OVERHEAD = {("pie", "v1"): 80, ("pie", "v3"): 80, ("pie", "v3-aws-lc"): 80, ("pi
             ("pbkw", "v1"): 100, ("pbkw", "v3"): 100, ("pbkw", "v3-aws-lc"): 100, ("pbkw", "v2"): 88, ("pbkw", "v4"): 88, ("pbkw", "v4-sodium"): 88,
             ("pke", "v1"): 560, ("pke", "v3"): 97, ("pke", "v3-aws-lc"): 97, ("pke", "v2"): 64, ("pke", "v4"): 64, ("pke", "v4-sodium"): 64}
 G8 = "(BE 64 $params[0..8])"
-# reviewed rejections of caller-supplied PBKW parameters (anything else derived from `params` is a violation)
+P4 = "(BE 32 $params[12..16])"
+# reviewed rejections of caller-supplied PBKW parameters, in the canonical form of paramcanon.py (any spelling of these tests is
+# accepted; anything else derived from `params` is a violation)
 PARAM_REJECTIONS = {
     "v1": set(), "v3": set(),
-    "v3-aws-lc": {"core::num::nonzero::NonZero::<u32>::new((BE 32 $params))"},   # 0 iterations: not a conforming blob
-    "v2": {f"core::num::<impl u64>::is_multiple_of({G8}, 1024)",                       # argon2 crate takes KiB
-           f"(NARROW (binop Div {G8} 1024))",   # > 4 TiB
+    "v3-aws-lc": {("eq", "(BE 32 $params)", 0)},          # 0 iterations: not a conforming blob
+    "v2": {("not-multiple", G8, 1024),                      # argon2 crate takes KiB
+           ("narrow", f"(binop Div {G8} 1024)"),            # > 4 TiB
            # lane count outside argon2's own bounds 1..=2^24-1 (checked up front since the D10 fix; argon2 rejects it anyway)
-           "core::ops::range::RangeInclusive::<u32>::contains::<u32>('\\x01\\x00\\x00\\x00\\xff\\xff\\xff\\x00\\x00\\x00\\x00\\x00', (BE 32 $params[12..16]))"},
-    "v4-sodium": {f"(NARROW {G8})",
-                  "(binop Ne (BE 32 $params[12..16]) 1)"},    # libsodium fixes parallelism = 1
+           ("below", P4, 1), ("above", P4, 16777215)},
+    "v4-sodium": {("narrow", G8),
+                  ("ne", P4, 1)},    # libsodium fixes parallelism = 1
 }
 PARAM_REJECTIONS["v4"] = PARAM_REJECTIONS["v2"]
 KDF_CALLS = ("ARGON2", "argon2::", "PBKDF2", "libsodium_rs::crypto_pwhash")
 
 def param_rejections(run):
-    """Normalised conditions of Err exits that depend on the caller's `params` but are not the KDF's own verdict."""
+    """Canonical atoms (paramcanon) of the Err exits that depend on the caller's `params` but are not the KDF's own verdict."""
+    import paramcanon
     out = []
     for r in run.err_paths:
         cause = r.path.err_cause
@@ -54,7 +57,11 @@ def param_rejections(run):
             continue
         if subterms(t, lambda x: x and x[0] in ("PBKDF2", "ARGON2", "H", "MAC", "ENC", "HKDF", "HST", "MACST")):
             continue    # downstream of the KDF: the library's verdict on derived material, not a parameter test
-        out.append(s)
+        atoms = paramcanon.canon(t, None if cause is not None else g["value"])
+        if atoms is None:
+            out.append(("unrecognised", s))
+        else:
+            out.extend(sorted(atoms))
     return out
 
 VARLEN_ENCODERS = ("num_bigint_dig::biguint::BigUint::to_bytes_be", "BN_bn2bin")
@@ -124,7 +131,7 @@ def run(ctx):
                 if op == "pbkw":
                     for s in param_rejections(c["wrap"]):
                         if s not in PARAM_REJECTIONS[be]:
-                            bad.append("unreviewed rejection of caller-supplied parameters: " + s[:300])
+                            bad.append("unreviewed rejection of caller-supplied parameters: " + str(s)[:300])
                 ctx.add("R05.4", f"C05/wrap-err-exits/{key}", not bad, "; ".join(bad)[:1200], facts={"classes": classes})
             # ---- R05.6 fixed length, R05.3 T-FIXW
             parts = blob_parts(c.get("blob")) if c.get("blob") else None
